@@ -148,6 +148,14 @@ fn suggestion_names_nothing(spec: &CmdSpec, rendered: &str) -> Option<String> {
         }
         out
     }
+    // the closing line "For more information, try 'help'." names the help SUBCOMMAND: it has to exist
+    if rendered.lines().any(|l| l.trim() == "For more information, try 'help'.") {
+        let mut any_subs = false;
+        spec.walk(&mut |c, _| any_subs |= !c.subs.is_empty(), 0);
+        if spec.has(CmdSetting::DisableHelpSubcommand) || !any_subs {
+            return Some("the closing line says `try 'help'`, but the help subcommand is disabled (or there is no subcommand at all)".to_string());
+        }
+    }
     for line in rendered.lines() {
         let l = line.trim();
         let Some(t) = l.strip_prefix("tip: ") else { continue };
@@ -325,6 +333,18 @@ impl Engine for ProcSim {
                 break;
             }
             spec = gen_tree(rng, &cfg);
+        }
+        // now and then a program without the generated help flag and / or help subcommand (the closing line of
+        // an error must then not point at them)
+        if rng.chance(1, 6) {
+            let before = spec.clone();
+            spec.set(CmdSetting::DisableHelpFlag);
+            if rng.coin() {
+                spec.set(CmdSetting::DisableHelpSubcommand);
+            }
+            if gate(&spec).is_err() {
+                spec = before;
+            }
         }
         let mut argv = gen_argv(rng, &spec, 7);
         match rng.below(8) {
